@@ -10,6 +10,23 @@ V = Path("/verif")
 
 def sh(c, **kw): return subprocess.run(c, shell=True, capture_output=True, text=True, **kw)
 
+def trim_context(edits, keep):
+    """drop leading/trailing lines common to old and new, keeping ``keep`` of them"""
+    out = []
+    for e in edits:
+        o, n = e["old"].splitlines(keepends=True), e["new"].splitlines(keepends=True)
+        a = 0
+        while a < len(o) and a < len(n) and o[a] == n[a]:
+            a += 1
+        b = 0
+        while b < len(o) - a and b < len(n) - a and o[-1 - b] == n[-1 - b]:
+            b += 1
+        lo = max(0, a - keep)
+        hi_o, hi_n = len(o) - max(0, b - keep), len(n) - max(0, b - keep)
+        out.append({"file": e["file"], "old": "".join(o[lo:hi_o]), "new": "".join(n[lo:hi_n])})
+    return out
+
+
 def hunks(diff, reverse=False):
     """-> list of {file, old, new} from a unified diff (old = text present before applying)"""
     out = []; cur = None; f = None
@@ -57,9 +74,30 @@ for line in sh("git -C /repo log --format='%h %s' --grep '^fix:'").stdout.splitl
                      "edits": edits if edits is not None else e})
 for sd in sorted((V / "seeded").iterdir()):
     if not (sd / "patch.diff").exists(): continue
+    e0 = hunks((sd / "patch.diff").read_text())
+    edits = e0
+    from pta.selftest.runner import _apply as _ap2
+    for keep in (3, 1, 0):
+        e = trim_context(e0, keep)
+        if any(not x["old"].strip() for x in e):
+            continue
+        tmp = Path(tempfile.mkdtemp(prefix="pta-gen-"))
+        try:
+            for h in e:
+                (tmp / h["file"]).parent.mkdir(parents=True, exist_ok=True)
+                if Path("/repo/" + h["file"]).exists():
+                    shutil.copy("/repo/" + h["file"], tmp / h["file"])
+            unique = all(Path("/repo/" + h["file"]).exists()
+                         and Path("/repo/" + h["file"]).read_text().count(h["old"]) == 1
+                         for h in e)
+            if unique and _ap2(tmp, e):
+                edits = e
+                break
+        finally:
+            shutil.rmtree(tmp, ignore_errors=True)
     variants.append({"name": f"seed-{sd.name}", "kind": "break",
                      "what": json.load(open(sd / "meta.json")).get("summary", ""),
-                     "edits": hunks((sd / "patch.diff").read_text())})
+                     "edits": edits})
 
 from pta.selftest.extra_variants import EXTRA
 variants += [dict(v) for v in EXTRA]
